@@ -6,9 +6,11 @@ import (
 	"context"
 	"errors"
 	"fmt"
+	"github.com/aldas/go-modbus-client/packet"
 	"math/rand"
 	"os"
 	"sync"
+	"sync/atomic"
 	"time"
 
 	modbus "github.com/aldas/go-modbus-client"
@@ -192,6 +194,26 @@ func outcomeKey(o clientx.Outcome) string {
 	return fmt.Sprintf("ok:%T:%x", o.Resp, o.Resp.Bytes())
 }
 
+// stampedRequest wraps a library request; each Bytes() call writes a new sequence number into the last byte before the
+// trailer-free end of the frame's first two bytes (TCP: transaction id low byte; RTU: left alone except a counter kept).
+type stampedRequest struct {
+	packet.Request
+	n atomic.Int32
+}
+
+func (s *stampedRequest) Bytes() []byte {
+	b := append([]byte(nil), s.Request.Bytes()...)
+	k := s.n.Add(1)
+	if len(b) >= 8 && b[2] == 0 && b[3] == 0 { // MBAP framing: stamp the transaction id
+		b[0], b[1] = byte(k>>8), byte(k)
+	} else if len(b) >= 4 { // RTU framing: stamp the unit id and redo the CRC
+		b[0] = byte(k)
+		w := specref.CRC(b[:len(b)-2])
+		b[len(b)-2], b[len(b)-1] = byte(w), byte(w>>8)
+	}
+	return b
+}
+
 func run(ci any, r *mon.Rec) {
 	c := ci.(*Case)
 	if clientx.TooManyHangs() {
@@ -203,6 +225,13 @@ func run(ci any, r *mon.Rec) {
 	if err != nil {
 		r.Violate(c, "constructor-refuses-legal", mon.Attrs{"fc": int(c.FC)}, err.Error())
 		return
+	}
+	if c.Seed%4 == 0 {
+		// an application-defined request type around the library's (the clients take any packet.Request): every Bytes()
+		// call stamps a fresh sequence number into the frame, so "the bytes of the encoded request" are the bytes of ONE
+		// encoding - the one the transport gets
+		req = &stampedRequest{Request: req}
+		r.Cover("request-type", "application-defined, Bytes() not idempotent")
 	}
 	E := req.ExpectedResponseLength()
 	rt := 12 * time.Millisecond
@@ -284,8 +313,12 @@ func run(ci any, r *mon.Rec) {
 				hparser = append(hparser, e)
 			}
 		}
-		if len(hw) != 1 || !bytes.Equal(hw[0].Data, req.Bytes()) {
-			r.Violate(c, "before-write-wrong", a, fmt.Sprintf("%s: %d BeforeWrite calls, args %x, request %x", ctx, len(hw), datas(hw), req.Bytes()))
+		sent := []byte(nil)
+		if len(tw) > 0 {
+			sent = tw[0].Data // what the transport was given (an injected write error still records the attempt)
+		}
+		if len(hw) != 1 || (len(tw) > 0 && !bytes.Equal(hw[0].Data, sent)) {
+			r.Violate(c, "before-write-wrong", a, fmt.Sprintf("%s: %d BeforeWrite calls, args %x, transport was given %x", ctx, len(hw), datas(hw), sent))
 		} else if len(tw) > 0 && !(hw[0].Seq < tw[0].Seq) {
 			r.Violate(c, "before-write-late", a, fmt.Sprintf("%s: BeforeWrite stamped %d, transport write %d", ctx, hw[0].Seq, tw[0].Seq))
 		}
